@@ -28,6 +28,19 @@ def cid(n):
     h = hashlib.md5(n.encode()).hexdigest()[:8]
     return re.sub(r'[^A-Za-z0-9_]', '_', n)[:60] + '_' + h
 
+def sid_hash(units):
+    M = (1 << 64) - 1; h = 0x1E3779B97F4A7C15 ^ len(units)
+    for c in units: h = (((h << 7) | (h >> 57)) & M) ^ c
+    return h | (1 << 63)
+def check_sid_injective(literals):
+    """mirror of vpl_hash16 in models/qt_core.c: every prefix (len > 3) of every literal of the translated program must get its own id"""
+    seen = {}
+    for lit in literals:
+        for n in range(4, len(lit) + 1):
+            pre = tuple(lit[:n]); h = sid_hash(pre)
+            if seen.setdefault(h, pre) != pre: return 'collision %r vs %r' % (seen[h], pre)
+    return True
+
 def log(*a):
     sys.stderr.write(' '.join(str(x) for x in a) + '\n'); sys.stderr.flush()
 
@@ -114,6 +127,8 @@ class Group:
         for p_ in mp:
             s.vpl_funcs |= set(re.findall(r'^static [\w \*]*?\b(vpl_\w+)\s*\(', open(p_).read(), re.M))
         s.report = json.load(open(os.path.join(s.dir, 'report.json')))
+        s.sid_check = check_sid_injective(s.report.get('literals16', []))
+        if s.sid_check is not True: raise BuildError('string-id hash is not injective on the literals of this program: %s' % (s.sid_check,))
         s.build_s = time.time() - t0
         # one main per instance
         for inst in s.g['instances']:
